@@ -2,6 +2,7 @@
   Model of lib/gnu_gama/intfloat.h: `TrimWhiteSpaces`, `IsInteger`, `IsFloat`
   (character-level recognisers).  Core Lean only.
 -/
+import Gama.Gen.GeoVariants
 namespace Gama.Literals
 
 /-- `isspace` in the "C" locale -/
@@ -20,35 +21,53 @@ def skipSign : List Char → List Char
   | '-' :: r => r
   | cs => cs
 
-/-- `IsInteger` -/
-def isInteger (s : List Char) : Bool :=
+/-- `IsInteger`; `needDigit`: the repaired code adds `if (b == e) return false;` after the sign
+    (notes/proposed/C18-isinteger-sign-only.diff) -/
+def isIntegerWith (needDigit : Bool) (s : List Char) : Bool :=
   match trim s with
   | [] => false
-  | cs => (skipSign cs).all isDigit
+  | cs =>
+    let ds := skipSign cs
+    if needDigit && ds.isEmpty then false else ds.all isDigit
 
-/-- `IsFloat` -/
+/-- the original code -/
+def isInteger (s : List Char) : Bool := isIntegerWith false s
+
+/-- the variant the current tree contains -/
+def isIntegerCur (s : List Char) : Bool := isIntegerWith Gen.isIntegerNeedsDigit s
+
+/-- the part after `e`/`E`: not empty, optional sign, at least one character left, only digits -/
+def exponentOk (r : List Char) : Bool :=
+  match r with
+  | [] => false
+  | _ =>
+    match skipSign r with
+    | [] => false
+    | ds => ds.all isDigit
+
+/-- what may follow the mantissa: nothing, or an exponent -/
+def tailOk (cs : List Char) : Bool :=
+  match cs with
+  | [] => true
+  | c :: r => (c = 'e' || c = 'E') && exponentOk r
+
+/-- the mantissa scan of `IsFloat`: (hasdigit, rest) -/
+def mantissa (cs : List Char) : Bool × List Char :=
+  let d1 := cs.takeWhile isDigit
+  let cs := cs.dropWhile isDigit
+  let cs := match cs with
+    | '.' :: r => r
+    | _ => cs
+  let d2 := cs.takeWhile isDigit
+  let cs := cs.dropWhile isDigit
+  (!d1.isEmpty || !d2.isEmpty, cs)
+
+/-- `IsFloat`: every early `return false` is in `tailOk`; the final `return hasdigit` is the conjunction -/
 def isFloat (s : List Char) : Bool :=
   match trim s with
   | [] => false
   | cs =>
-    let cs := skipSign cs
-    let d1 := cs.takeWhile isDigit
-    let cs := cs.dropWhile isDigit
-    let cs := match cs with
-      | '.' :: r => r
-      | _ => cs
-    let d2 := cs.takeWhile isDigit
-    let cs := cs.dropWhile isDigit
-    let hasdigit := !d1.isEmpty || !d2.isEmpty
-    match cs with
-    | [] => hasdigit
-    | c :: r =>
-      if c ≠ 'e' ∧ c ≠ 'E' then false
-      else match r with
-        | [] => false
-        | _ =>
-          match skipSign r with
-          | [] => false
-          | ds => if ds.all isDigit then hasdigit else false
+    let m := mantissa (skipSign cs)
+    tailOk m.2 && m.1
 
 end Gama.Literals
